@@ -562,7 +562,19 @@ func ruleStoreOrFail(c *Check, ruleStore, ruleCommitted, ruleRO string) {
 			// the failure of this round's Store: otherwise the loop can run out
 			// of retries with a nil error and SendOnce reports success
 			if len(stores) >= 1 {
-				for _, r := range p.Rets {
+				carried := append([]string{}, p.Rets...)
+				for nm := range loopErrNames {
+					// a variable kept in memory (a named result spilled by a defer)
+					if backedgeVal(p, nm) != "" {
+						continue
+					}
+					for k, v := range p.Store {
+						if k == "&alloc:"+nm || strings.HasPrefix(k, "&alloc:"+nm+".t") && !strings.Contains(k[len("&alloc:"+nm)+1:], ".") {
+							carried = append(carried, nm+"="+v)
+						}
+					}
+				}
+				for _, r := range carried {
 					eq := strings.Index(r, "=")
 					if eq <= 0 {
 						continue
